@@ -82,6 +82,9 @@ STATEMENT_STATUS: Dict[str, str] = {
     "a85decode_translated": "proved: one iteration of the model's a85decode loop and its final padding step = the code "
         "translated from the source of base64.a85decode of the running interpreter (defaults foldspaces=adobe=False, "
         "ignorechars, digit range, group length, 85*acc+(x-33), z group, b'u'*4, 4-len(curr))",
+    "length_direct_indirect/length_resolve_fuel/stream_read_indirect": "proved: int_value(dic['Length']) is the same for an "
+        "integer and for a reference to an object holding it; unresolvable / cyclic / non-integer give 0, a missing key none; "
+        "the resolution fuel suffices; stream_read_exact with an indirect Length",
     "file_chain_rt": "proved: the property in one statement - file bytes -> stream branch (Length = |z|) -> PDFStream.decode "
         "of a chain of any length gives exactly the payload",
     "predictor_translated": "proved: the model's predictor dispatch = the translated `pred == 1 / == 2 / >= 10 / else` chain of "
@@ -936,7 +939,7 @@ class _StubDoc:
         raise KeyError(objid)
 
 
-def parse_stream_at(buf: bytes, pos: int, fallback: bool = False, want_end: bool = False):
+def parse_stream_at(buf: bytes, pos: int, fallback: bool = False, want_end: bool = False, doc=None):
     """Run the real PDFParser on `buf` from `pos` (start of `<< ... >> stream`); returns (dict, rawdata)
     of the first stream object the `stream` branch of do_keyword pushes; PSEOF when it pushes none."""
     from pdfminer.pdfparser import PDFParser
@@ -955,7 +958,7 @@ def parse_stream_at(buf: bytes, pos: int, fallback: bool = False, want_end: bool
             PDFParser.push(self, *objs)
 
     p = Capture(io.BytesIO(buf))
-    p.set_document(_StubDoc())  # type: ignore[arg-type]
+    p.set_document(doc if doc is not None else _StubDoc())  # type: ignore[arg-type]
     p.seek(pos)
     p.fallback = fallback
     try:
@@ -977,9 +980,10 @@ def parse_stream_at(buf: bytes, pos: int, fallback: bool = False, want_end: bool
 ENDSTREAM = b"endstream"
 
 
-def streamx_impl(buf: bytes, pos: int, fallback: bool) -> str:
+def streamx_impl(buf: bytes, pos: int, fallback: bool, len_obj=None) -> str:
     try:
-        _, raw, end = parse_stream_at(buf, pos, fallback=fallback, want_end=True)
+        doc = _ObjDoc([(len_obj[0], len_obj[1])]) if len_obj else None
+        _, raw, end = parse_stream_at(buf, pos, fallback=fallback, want_end=True, doc=doc)
         return "B " + hx(raw) + " " + str(end)
     except Exception as e:  # noqa: BLE001
         return "E " + type(e).__name__
@@ -996,14 +1000,15 @@ def check_streamx(ctx, batch, inp, from_replay: bool = False) -> None:
     if inp.get("cut") is not None:
         buf = buf[:inp["cut"]]
     spos = len(head) + len(dic)
-    got = streamx_impl(buf, len(head), fb)
+    got = streamx_impl(buf, len(head), fb, inp.get("len_obj"))
     ln = inp["length"]
     batch.add(f"streamx {1 if fb else 0} {spos} {'none' if ln is None else ln} {hx(buf)}", got,
               {"op": "streamx", "input": inp})
     kind = got[2:] if got.startswith("E") else "ok"
     ctx.case(("streamx", buf, fb, ln), True, sample={"op": "streamx", "fallback": fb, "length": ln, "buf": hx(buf)[:80]},
              branch="streamx:%s:%s:%s" % ("fallback" if fb else "length",
-                                          "nolen" if ln is None else ("neg" if ln < 0 else "int"), kind))
+                                          "nolen" if ln is None else (("neg" if ln < 0 else "int") +
+                                                                      ("-indirect" if inp.get("len_obj") else "")), kind))
     if not inp.get("domain"):
         return
     # property on the implementation.  domain: tail ends the data, `endstream` follows, a line end follows it
@@ -1021,7 +1026,10 @@ def check_streamx(ctx, batch, inp, from_replay: bool = False) -> None:
             inp2["payload"] = hx(sub)
             if inp["length"] == len(payload):
                 inp2["length"] = len(sub)
-                inp2["dic"] = hx(b"<</Length %d>>" % len(sub) + dic[dic.rfind(b">>") + 2:])
+                if inp.get("len_obj"):
+                    inp2["len_obj"] = [inp["len_obj"][0], len(sub)]
+                else:
+                    inp2["dic"] = hx(b"<</Length %d>>" % len(sub) + dic[dic.rfind(b">>") + 2:])
             return inp2
 
         def outcome(inp2):
@@ -1033,7 +1041,7 @@ def check_streamx(ctx, batch, inp, from_replay: bool = False) -> None:
             buf2 = h2 + d2 + b"stream" + e2 + p2 + t2 + q2
             w2 = len(h2) + len(d2) + 6 + len(e2) + len(p2 + t2)
             exp2 = "B " + hx(p2 + t2 if fb else p2) + " " + str(w2)
-            return streamx_impl(buf2, len(h2), fb), exp2
+            return streamx_impl(buf2, len(h2), fb, inp2.get("len_obj")), exp2
 
         def still(sub: bytes) -> bool:
             r = outcome(variant(sub))
@@ -1047,6 +1055,69 @@ def check_streamx(ctx, batch, inp, from_replay: bool = False) -> None:
         ctx.fail(C.Failure("stream branch: rawdata / resume position wrong (%s mode)" % ("fallback" if fb else "Length"),
                            {"kind": "streamx", **inp}, exp[:400], got[:400],
                            {"stage": "delimit", "mode": "fallback" if fb else "length"}))
+
+
+class _ObjDoc:
+    """Stub document for `PDFObjRef.resolve`: `objs` maps id -> object; a missing id raises PDFObjectNotFound."""
+    decipher = None
+
+    def __init__(self, objs):
+        self.objs = objs
+
+    def getobj(self, objid):
+        from pdfminer.pdfexceptions import PDFObjectNotFound
+        for k, v in self.objs:
+            if k == objid:
+                return v
+        raise PDFObjectNotFound(objid)
+
+
+def check_lenval(ctx, batch, objs, v) -> None:
+    """(tie) `lengthValue` == `int_value(dic["Length"])` (pdftypes.int_value / resolve1 / PDFObjRef.resolve) for
+    direct, indirect (chains, cycles, missing objects, non-integers, duplicate ids) and missing Length."""
+    from pdfminer.pdftypes import PDFObjRef, int_value
+    from pdfminer.psparser import LIT
+    doc = _ObjDoc([])
+
+    def py(o):
+        if o[0] == "i":
+            return o[1]
+        if o[0] == "r":
+            return PDFObjRef(doc, o[1])  # type: ignore[arg-type]
+        return o[1]
+    doc.objs = [(k, py(o)) for k, o in objs]
+    dic = {} if v is None else {"Length": py(v)}
+    try:
+        got = str(int_value(dic["Length"]))
+    except KeyError:
+        got = "none"
+    except Exception as e:  # noqa: BLE001
+        got = "E " + type(e).__name__
+
+    def sp(o):
+        return "i%d" % o[1] if o[0] == "i" else ("r%d" % o[1] if o[0] == "r" else "o")
+    line = "lenval " + (",".join("%d:%s" % (k, sp(o)) for k, o in objs) or "-") + " " + ("none" if v is None else sp(v))
+    batch.add(line, got, {"op": "lenval"})
+    kind = "none" if v is None else v[0]
+    ctx.case(("lenval", line), True, sample={"op": "lenval", "line": line[:80]},
+             branch="lenval:%s:%s" % (kind, "zero" if got == "0" else ("none" if got == "none" else "int")))
+
+
+def gen_lenval(rng):
+    from pdfminer.psparser import LIT
+    others = [None, 1.5, b"7", LIT("N"), [3], {"a": 1}]
+
+    def obj(ids):
+        k = rng.random()
+        if k < 0.4:
+            return ("i", rng.choice([0, 1, 5, 300, -4, 10 ** 6, 2 ** 70]))
+        if k < 0.85:
+            return ("r", rng.choice(ids + [rng.randint(1, 12)]))
+        return ("o", rng.choice(others))
+    ids = [rng.randint(1, 9) for _ in range(rng.randint(0, 6))]
+    objs = [(i, obj(ids)) for i in ids]
+    v = None if rng.random() < 0.08 else obj(ids or [3])
+    return objs, v
 
 
 def gen_streamx(rng, domain: bool):
@@ -1075,8 +1146,12 @@ def gen_streamx(rng, domain: bool):
         ln = rng.choice([len(payload), 0, None, -1, -rng.randint(2, 50), len(payload) + rng.randint(1, 30),
                          max(0, len(payload) - rng.randint(1, 5)), 10 ** 6, 2 ** 70])
         post = rng.choice([ENDSTREAM + post, ENDSTREAM + post, b"endstrea", b"", b"\n", ENDSTREAM, b"xendstream endstream\n"])
-    dic = (b"<<>>" if ln is None else b"<</Length %d>>" % ln) + rng.choice([b"\n", b" ", b"", b"\r\n"])
-    inp = {"head": hx(head), "dic": hx(dic), "eol": hx(eol), "payload": hx(payload), "tail": hx(tail), "post": hx(post),
+    len_obj = None
+    if ln is not None and rng.random() < 0.3:
+        len_obj = [rng.randint(6, 40), ln]          # `/Length n 0 R`, object n holds the integer
+    dic = (b"<<>>" if ln is None else (b"<</Length %d 0 R>>" % len_obj[0] if len_obj else b"<</Length %d>>" % ln)) \
+        + rng.choice([b"\n", b" ", b"", b"\r\n"])
+    inp = {"len_obj": len_obj, "head": hx(head), "dic": hx(dic), "eol": hx(eol), "payload": hx(payload), "tail": hx(tail), "post": hx(post),
            "fallback": fb, "length": ln, "cut": None, "domain": domain}
     if not domain and rng.random() < 0.12:
         total = len(head) + len(dic) + 6 + len(eol) + len(payload) + len(tail) + len(post)
@@ -1223,6 +1298,10 @@ def run_chains(ctx) -> None:
             got = "E " + type(e).__name__
         batch.add(f"stream {spos} {ln} {hx(buf)}", got, {"op": "stream-wild"})
         ctx.case(("streamwild", buf, ln), True, branch="streamwild:" + (got[2:] if got.startswith("E") else "ok"))
+    batch.flush()
+    # round 6: int_value(dic["Length"]) - direct / indirect / missing
+    for i in range(ctx.n(400, 5000)):
+        check_lenval(ctx, batch, *gen_lenval(rng))
     batch.flush()
     # round 6: the whole stream branch (fallback mode, Length clamp, endstream scan, resume position)
     for i in range(ctx.n(700, 9000)):
